@@ -229,8 +229,12 @@ class Categorize(Factory, Container):
                 raise TypeError(f"function return value ({q}) must be a string or bool")
 
             if q not in self.bins:
-                self.bins[q] = self.value.zero()
-            self.bins[q].fill(datum, weight)
+                # fill the new bin before inserting it, so that a failing fill leaves no empty bin behind
+                sub = self.value.zero()
+                sub.fill(datum, weight)
+                self.bins[q] = sub
+            else:
+                self.bins[q].fill(datum, weight)
 
             # no possibility of exception from here on out (for rollback)
             self.entries += weight
